@@ -99,6 +99,7 @@ type release struct {
 	want  []uint64
 	peers []string // acceptable destinations "ip:port/teid"
 	qfi   [2]int   // acceptable QFI (-1 none): from the rules before the update
+	qfis  map[int]bool // every QFI the PDR's QER list can yield at some point of the message
 	got   []uint64
 }
 
@@ -226,6 +227,61 @@ func (s *Sim) checkBuffers(ctx *StepCtx) {
 						}
 					}
 				}
+				// every outcome of "first QER of the list with a non-zero QFI" when each QER
+				// is seen as before the message, as after it, or not at all (removed /
+				// not yet created): the order of operations inside a message is the UPF's
+				rel.qfis = map[int]bool{}
+				var opts [][]int
+				for _, qa := range findAll(attrs, aPDRQERID) {
+					o := []int{}
+					add := func(v int) {
+						for _, e := range o {
+							if e == v {
+								return
+							}
+						}
+						o = append(o, v)
+					}
+					preQ, hadPre := ctx.preRules[RuleKey{"qer", x.UP, qa.u64()}]
+					postQ, hasPost := s.kern.rules[RuleKey{"qer", x.UP, qa.u64()}]
+					if hadPre {
+						v := 0
+						if f, ok := findAttr(preQ, aQERQFI); ok {
+							v = int(f.u64())
+						}
+						add(v)
+					}
+					if hasPost {
+						v := 0
+						if f, ok := findAttr(postQ.Attrs, aQERQFI); ok {
+							v = int(f.u64())
+						}
+						add(v)
+					}
+					if !hadPre || !hasPost {
+						add(0) // absent at some point: skipped like a QER without QFI
+					}
+					opts = append(opts, o)
+				}
+				var walk func(i int)
+				walk = func(i int) {
+					if i == len(opts) {
+						rel.qfis[-1] = true
+						return
+					}
+					for _, v := range opts[i] {
+						if v != 0 {
+							rel.qfis[v] = true
+						} else {
+							walk(i + 1)
+						}
+					}
+				}
+				walk(0)
+				if x.PDRTaint[pdr] {
+					rel.optional = true
+					delete(x.PDRTaint, pdr)
+				}
 				rels = append(rels, rel)
 				relByPDR[pdr] = rel
 			}
@@ -311,10 +367,12 @@ func (s *Sim) checkBuffers(ctx *StepCtx) {
 			s.violate("C13", "buf.tunnel", "buf:wrong-tunnel", "packet %d re-injected to %s, the FAR's peer/TEID is %v", tag, dst, rel.peers)
 		}
 		want := rel.qfi[0]
-		if rel.qfi[1] != rel.qfi[0] {
-			if (rel.qfi[1] < 0 && !g.HasExt) || (g.HasExt && int(g.QFI) == rel.qfi[1]) {
-				want = rel.qfi[1]
-			}
+		got := -1
+		if g.HasExt {
+			got = int(g.QFI)
+		}
+		if rel.qfis[got] {
+			want = got
 		}
 		switch {
 		case want < 0 && g.HasExt:
